@@ -139,7 +139,7 @@ func (t *Thread) callFn(fn *ssa.Function, args []Value, env []Value, pos token.P
 func (t *Thread) interpret(fn *ssa.Function, args []Value, env []Value) (result Value) {
 	e := t.e
 	t.depth++
-	if t.depth > 400 {
+	if t.depth > 4000 {
 		panic(pathAbort{"budget", "call depth exceeded in " + fn.String()})
 	}
 	fr := &frame{fn: fn, locals: make(map[ssa.Value]Value, 16), env: env}
